@@ -457,7 +457,10 @@ def _gen_plan(family, rng, pool, tier):
                 faults.append({'kind': 'len', 'section': sec, 'delta': k})
         faults = [f for f in faults if bufrgen.apply_fault(raw, f) != raw and
                   bufrgen.apply_fault(raw, f).find(b'BUFR', 1) < 0]
-        return {'knobs': {'mode': rng.choice(['full', 'full', 'info']), 'coe': rng.random() < 0.85, 'front': 'api',
+        front = rng.choice(['api', 'api', 'api', 'api', 'cli-decode', 'cli-info-m', 'cli-split'])
+        mode = 'info' if front in ('cli-info-m', 'cli-split') else ('full' if front == 'cli-decode' else
+                                                                     rng.choice(['full', 'full', 'info']))
+        return {'knobs': {'mode': mode, 'coe': rng.random() < 0.85, 'front': front,
                           'compiled': None, 'filter': None, 'order': rng.choice(['AB', 'AB', 'BA', 'BAB'])},
                 'items': [_item(a), _item(b)], 'faults': faults,
                 'seps': [gen_separator(rng)[1].hex() if rng.random() < 0.4 else '' for _ in range(4)]}
@@ -1322,7 +1325,8 @@ def shape(plan, tr=None):
                 kn.get('front'), kn.get('compiled'),
                 (kn.get('filter') or {}).get('idx'), (kn.get('warm') or {}).get('how'))
     if fam == 'c12-enum':
-        return (fam, plan['items'][0]['ref'], plan['items'][1]['cls'], kn.get('mode'), kn.get('coe'), kn.get('order'))
+        return (fam, plan['items'][0]['ref'], plan['items'][1]['cls'], kn.get('mode'), kn.get('coe'), kn.get('order'),
+                kn.get('front'))
     if fam == 'c12-trunc':
         return (fam, plan['items'][0]['ref'], kn.get('compiled'))
     if fam == 'c12-tail':
